@@ -407,12 +407,13 @@ pub fn check_accounting(o: &Outcome, wt: &HashMap<u64, WInfo>, a: &mut Analysis)
   let expiry_possible = o.scn.cache.ttl.is_some() || o.scn.cache.tti.is_some() || o.scn.weights[Kind::InsertTtl as usize] > 0;
   let mode = o.scn.mode.name();
   // Variant = what the history proves about possible causes (labelling only; the alarm does
-  // not depend on it): cleanup_capacity / admission evictions happened at all; else a clear
-  // was issued; else TTL/TTI cleanup removed something; else none of these.
+  // not depend on it): capacity evictions happened (evicted_by_capacity > 0) and / or a
+  // clear() was issued; else TTL/TTI cleanup removed something; else none of these.
   let mget = |k: &str| au.metrics.get(k).and_then(|v| v.as_u64()).unwrap_or(0);
+  let cleared = o.evs.iter().any(|e| e.kind == Kind::Clear);
   let variant = if mget("evicted_by_capacity") > 0 {
-    "capacity-eviction"
-  } else if o.evs.iter().any(|e| e.kind == Kind::Clear) {
+    if cleared { "capacity-eviction+clear" } else { "capacity-eviction" }
+  } else if cleared {
     "clear"
   } else if mget("evicted_by_ttl") + mget("evicted_by_tti") > 0 {
     "expiry"
